@@ -100,13 +100,14 @@ impl<V> Frame<V> {
         );
 
         // create and render scene
-        let scene = Scene::group(vec![
-            Scene::fill(
-                path.clone(),
-                Arc::new(LinColor::from(self.color)),
-                FillRule::default(),
-            ),
-            Scene::stroke(
+        // stroke of zero width draws nothing (and can not be rasterized)
+        let mut layers = vec![Scene::fill(
+            path.clone(),
+            Arc::new(LinColor::from(self.color)),
+            FillRule::default(),
+        )];
+        if border > 0.0 {
+            layers.push(Scene::stroke(
                 path,
                 Arc::new(LinColor::from(self.border_color)),
                 StrokeStyle {
@@ -114,8 +115,9 @@ impl<V> Frame<V> {
                     line_join: LineJoin::Round,
                     line_cap: LineCap::Round,
                 },
-            ),
-        ]);
+            ));
+        }
+        let scene = Scene::group(layers);
         let image = scene.render(
             &rasterize::ActiveEdgeRasterizer::default(),
             Transform::identity(),
@@ -201,8 +203,8 @@ impl<V: View> View for Frame<V> {
         self.view.layout(ctx, ct, child_layout.view_mut())?;
         child_layout.set_position(Position::new(1, 1));
         let size = Size {
-            height: child_layout.size().height + 2,
-            width: child_layout.size().width + 2,
+            height: child_layout.size().height.saturating_add(2),
+            width: child_layout.size().width.saturating_add(2),
         };
         *layout = Layout::new().with_size(size);
         Ok(())
